@@ -5,6 +5,7 @@ import (
 	"cmp"
 	"errors"
 	"fmt"
+	"io"
 	"iter"
 	"math"
 	"os"
@@ -212,9 +213,15 @@ type c17Cfg struct {
 	v      pdf.Version
 	hr     bool
 	useMap bool // WriteMap instead of Write (names only)
+	// inStream writes the tree while a stream is open on the Writer (Put is
+	// then deferred until the stream is closed)
+	inStream bool
 }
 
 func (c c17Cfg) String() string {
+	if c.inStream {
+		return fmt.Sprintf("version=%s HumanReadable=%v WriteMap=%v written-while-a-stream-is-open", c.v, c.hr, c.useMap)
+	}
 	return fmt.Sprintf("version=%s HumanReadable=%v WriteMap=%v", c.v, c.hr, c.useMap)
 }
 
@@ -438,6 +445,15 @@ func c17Check[K cmp.Ordered](c *kit.Case, kd *c17Kind[K], cfg c17Cfg, label stri
 		index[k] = i
 	}
 
+	var open io.WriteCloser
+	if cfg.inStream {
+		open, err = out.OpenStream(out.Alloc(), pdf.Dict{"Type": pdf.Name("VerifOpenStream")})
+		if err != nil {
+			r.fail("setup", "OpenStream: %v", err)
+			return
+		}
+		open.Write([]byte("q 1 0 0 1 0 0 cm\n"))
+	}
 	var root pdf.Reference
 	if cfg.useMap && kd.writeMap != nil {
 		m := make(map[K]pdf.Object, n)
@@ -457,6 +473,14 @@ func c17Check[K cmp.Ordered](c *kit.Case, kd *c17Kind[K], cfg c17Cfg, label stri
 	if err != nil {
 		r.fail("write-refused", "writing a sorted duplicate-free sequence failed: %v", err)
 		return
+	}
+	if open != nil {
+		open.Write([]byte("Q\n"))
+		if err := open.Close(); err != nil {
+			r.fail("setup", "closing the open stream: %v", err)
+			return
+		}
+		c.Inc("trees_written_while_a_stream_is_open")
 	}
 	pages := out.Alloc()
 	out.Put(pages, pdf.Dict{"Type": pdf.Name("Pages"), "Kids": pdf.Array{}, "Count": pdf.Integer(0)})
@@ -789,8 +813,8 @@ func c17NumKeys(rng *kit.Rand, style, n int) []pdf.Integer {
 }
 
 var c17Configs = []c17Cfg{
-	{pdf.V1_7, false, false}, {pdf.V1_7, true, true}, {pdf.V2_0, false, true}, {pdf.V1_4, true, false},
-	{pdf.V1_2, false, false}, {pdf.V2_0, true, false},
+	{pdf.V1_7, false, false, false}, {pdf.V1_7, true, true, false}, {pdf.V2_0, false, true, false}, {pdf.V1_4, true, false, false},
+	{pdf.V1_2, false, false, false}, {pdf.V2_0, true, false, false},
 }
 
 const (
@@ -803,6 +827,7 @@ const (
 func c17Case(c *kit.Case, which, n int, phaseProbes int) {
 	rng := c.Rng
 	cfg := c17Configs[rng.Intn(len(c17Configs))]
+	cfg.inStream = rng.Chance(1, 4)
 	if which%2 == 0 {
 		style := (which / 2) % c17NameStyles
 		keys := c17NameKeys(rng, style, n)
@@ -928,7 +953,7 @@ func TestVerifC17(t *testing.T) {
 	r.Exhaustive("all-sizes-0-260")
 	r.Phase("all-sizes-0-260", 2*261, func(c *kit.Case) {
 		n := c.Index / 2
-		cfg := c17Cfg{pdf.V1_7, c.Index%4 < 2, false}
+		cfg := c17Cfg{pdf.V1_7, c.Index%4 < 2, false, c.Index%8 >= 4}
 		if c.Index%2 == 0 {
 			keys := c17FixedNames(n)
 			c17Check(c, &c17Names, cfg, "fixed keys", keys, 5000)
